@@ -41,7 +41,8 @@ def handler_call(h, ty, args, hs):
 
 SPEC("pane.convert", "ConverterHandlers._process",
      shapes={"handlers": "map", "conv_map": "map", "args": "seq"},
-     ensures=[(lambda handlers, result: implies(is_none(handlers), slen(result) == 0), ["C18"], "none"),
+     ensures=[(lambda handlers, result: not is_none(result) and isinstance(result, tuple), ["C18"], "tuple"),
+              (lambda handlers, result: implies(is_none(handlers), slen(result) == 0), ["C18"], "none"),
               (lambda handlers, result: implies(isinstance(handlers, dict),
                                                 slen(result) == 1 and forall_val(lambda ty: forall_val(lambda args: forall_val(lambda hs: implies(
                                                     hashable(ty) and has_attr(args, "__len__"),
